@@ -184,11 +184,12 @@ func ValidateModel(progs []*Program, traces []TraceItem, cfg string, deadline ti
 			}
 			data := DataModule(progs, rest)
 			r := tlc.Run(tlc.Opts{SpecDir: SpecDir, Extra: map[string]string{"ExecData.tla": data},
-				Module: "ExecTrace", Config: cfg, Workers: 1, Timeout: to, DFS: true})
+				Module: "ExecTrace", Config: cfg, Workers: 1, Timeout: to, DFS: true, HeapMB: 6000})
 			mv.Runs++
 			mv.States += r.Distinct
 			mv.Wall += r.Wall
-			if r.TimedOut {
+			if r.TimedOut || (r.Violation == "" && !r.OK && hwRe.FindStringSubmatch(r.Out) == nil && !strings.Contains(r.Out, "Parsing or semantic analysis failed")) {
+				// out of time, or the JVM ran out of memory / was killed: never a verdict - split the batch
 				if len(rest) == 1 {
 					mv.Unchecked++
 					mv.Slow = append(mv.Slow, rest[0].ID)
